@@ -5,6 +5,7 @@ from mir import op_fn, op_place, origins
 import lib
 import anchors as A
 import c07
+import core
 
 EXPLANATION = (
     "In ReactCommands::once: the stored (outer) closure obtains the inner closure through Option::take on its captured "
@@ -127,6 +128,7 @@ def check(ctx):
         for blocks, what in ((desp_blocks, "despawn"), (rev_blocks, "revoke")):
             ctx.check(all(inner.dominates(rb, b) or rb in inner.reach_from(0) and b in inner.reach_from(lib.call_target(inner, rb)) for b in blocks), "C15.b",
                       "once::inner:%s-after-run" % what, inner.loc(rb), "", "%s happens before the run" % what)
+    _locality(ctx)
     # ---- C15.c same identity everywhere ----
     ids = [(b, t) for b, t, fr in once.iter_calls() if fr and lib.tail(mir.fn_name(fr), 1) == "id"]
     spawn = [b for b, t, fr in once.iter_calls() if fr and lib.tail(mir.fn_name(fr), 2) == "Commands::spawn_empty"]
@@ -196,3 +198,11 @@ def check(ctx):
         if st["k"] == "assign" and st["place"]["l"] == 0 and not st["place"]["p"] and "use" in st["rv"] and nf:
             ret_ok = lib.originates_from_call(once, st["rv"]["use"], nf[0][0])
     ctx.check(ret_ok, "C15.c", "once:returns-that-token", "%s:%d" % (once.file, once.line), "", "the token returned to the user is not the one whose clone the reactor revokes")
+
+
+def _locality(ctx):
+    """C15.d: a one-off reactor's registrations survive until it fires or is revoked: other revocations remove only
+    their own entries (shared with C06.b / C06.f)"""
+    import c06
+    n = core.adopt(ctx, c06, lambda o: o["rule"] in ("C06.b", "C06.f"), "C15.d")
+    ctx.floor("C15.d", n, 25, "shared revoke-locality obligations (C06.b/f)")
